@@ -27,11 +27,12 @@ def names():
 
 
 def _ctc(draw, nms, feats):
-    return _cap_xor(draw(S.expr_of_depth(nms, logic.LOGICAL, draw(st.integers(0, 3)))), [2])
+    return _cap_xor(draw(S.expr_of_depth(nms, logic.LOGICAL, draw(st.integers(0, 5)))), [2])
 
 
-PROFILE = S.Profile(names(), single=("mandatory", "optional"), group=("alternative", "or", "mutex", "card"), layout="free",
-                    abstract=True, ctc_max=4, ctc_expr=_ctc)
+PROFILE = S.Profile(names(), single=("mandatory", "optional"), group=("alternative", "or", "mutex", "card", "card", "star"), layout="free",
+                    abstract=True, ctc_max=4, ctc_expr=_ctc,
+                    sanitize=lambda n: n + "_" if n in ("not", "and", "or", "XOR") else n)
 
 
 def all_selections(nms):
